@@ -27,7 +27,7 @@ func init() {
 }
 
 func runC15(r *core.Run) {
-	r.Rule("seeded histories (swaps, mints, failed / pending / later-resolved melts, internal settlement, P2PK spends with witness, rotations, restarts); after every operation one ProofsStateCheck and one RestoreSignatures query mixing known (every state), unknown, repeated and malformed entries in PRNG order is compared entry by entry with the reference model; every 20 operations a byte-identical /v1/restore and /v1/checkstate request is sent over HTTP before and after the messages are signed / the proof is spent and the second answer must reflect the change; non-trivial = distinct (history, operation index) queries that contained at least one SPENT or PENDING Y or one signed B_")
+	r.Rule("seeded histories (swaps, mints, failed / pending / later-resolved melts, internal settlement, P2PK spends with witness, rotations, restarts); after every operation one ProofsStateCheck and one RestoreSignatures query mixing known (every state), unknown, repeated and malformed entries in PRNG order is compared entry by entry with the reference model; every 20 operations a byte-identical /v1/restore and /v1/checkstate request is sent over HTTP before and after the messages are signed / the proof is spent and the second answer must reflect the change; malformed entries include strings that are patterns to a storage layer (%, _, *, ?) built from values the mint knows; non-trivial = distinct (history, operation index) queries that contained at least one SPENT or PENDING Y or one signed B_")
 	r.Assume("known Ys / B_s are queried in lower-case compressed form; empty queries are C06's subject")
 	nh, nops := pick(r, 6, 50), pick(r, 100, 300)
 	core.Parallel(nh, 8, func(h int) {
